@@ -461,6 +461,23 @@ func writeFam(c runCfg, r *famResult, meta map[string]interface{}) error {
 		}
 		bad = append(bad, map[string]string{"pkg": p.Name, "generr": p.GenErr, "genpanic": p.GenPanic, "builderr": p.BuildErr, "doc": string(p.Doc)})
 	}
+	// which of the generator's named templates this corpus executed (second generation pass with TEMPLATE_DEBUG in the workers)
+	if scratch.Coverage && len(r.Pkgs) > 0 {
+		tcov := map[string]int{}
+		for _, p := range r.Pkgs {
+			for _, t := range p.Templates {
+				tcov[t]++
+			}
+		}
+		var never []string
+		for _, n := range templateNames() {
+			if tcov[n] == 0 {
+				never = append(never, n)
+			}
+		}
+		meta["templates_executed"] = tcov
+		meta["templates_never_executed_by_name"] = never
+	}
 	meta["packages"] = len(r.Pkgs)
 	meta["packages_ok"] = ok
 	meta["packages_bad"] = bad
